@@ -214,19 +214,21 @@ def isSpace (b : UInt8) : Bool := b.toNat == 9 || b.toNat == 10 || b.toNat == 13
 /-- The closure of the block-comment `position` call, iterated over `bytes[..len-1]` from index 2:
 `l` is the text from index `k + 2` on, `k` the number of items already consumed by `position`.
 The item at `p = k + 2` is inspected together with `bytes[p + 1]`, which exists because the iteration
-stops one byte before the end. Returns `comment_bytes`. -/
+stops one byte before the end. Returns `comment_bytes`. `scanStep` is the closure body. -/
+def scanStep (b c : UInt8) (p start depth : Nat) : Nat × Nat :=
+  let open1 := b.toNat == 47 && decide (p ≥ start) && c.toNat == 42
+  let close1 := b.toNat == 42 && decide (p ≥ start) && c.toNat == 47
+  (if open1 || close1 then p + 2 else start,
+   if open1 then depth + 1 else if close1 then depth - 1 else depth)
+
 def scanBlock : Bytes → Nat → Nat → Nat → Option Nat
   | [], _, _, _ => none
   | b :: tl, k, start, depth =>
     match tl with
     | [] => none
     | c :: _ =>
-      let p := k + 2
-      let open1 := b.toNat == 47 && decide (p ≥ start) && c.toNat == 42
-      let close1 := b.toNat == 42 && decide (p ≥ start) && c.toNat == 47
-      let start1 := if open1 || close1 then p + 2 else start
-      let depth1 := if open1 then depth + 1 else if close1 then depth - 1 else depth
-      if depth1 == 0 then some k else scanBlock tl (k + 1) start1 depth1
+      let r := scanStep b c (k + 2) start depth      -- the closure body: new (start, depth)
+      if r.2 == 0 then some k else scanBlock tl (k + 1) r.1 r.2
 
 inductive SkipRes where
   | go (s : State)                  -- the `while` loop was left normally
